@@ -293,6 +293,9 @@ func stopMachine(sys *vsys.System, m *exec.VerifC14sMachine) {
 	for m.State() != bigmachine.Stopped && time.Now().Before(deadline) {
 		time.Sleep(200 * time.Microsecond)
 	}
+	// bigmachine publishes the new state first and closes the channels of its waiters
+	// (which managed threads are parked on) right afterwards, outside its lock.
+	time.Sleep(20 * time.Millisecond)
 }
 
 var cfgs = []scenCfg{
